@@ -113,8 +113,20 @@ Fixpoint valid_vlists_b (S A O prevn : nat) (l : list vlist) : bool :=
   | [] => true
   | vl :: l' => negb (length vl =? 0) && forallb (valid_ventry_b S A O prevn) vl && valid_vlists_b S A O (length vl) l'
   end.
+(* structural (Leibniz) equality with the rational 0 # 1, the value makeValueFunction stores *)
+Definition q_is_zero_b (q : Q) : bool := (Qnum q =? 0)%Z && (Qden q =? 1)%positive.
+Definition is_h0_b (S : nat) (vl : vlist) : bool :=
+  match vl with
+  | [e] => (length (vValues e) =? S) && forallb q_is_zero_b (vValues e) && (vAction e =? 0)%N &&
+           match vObs e with [] => true | _ => false end
+  | _ => false
+  end.
 Definition valid_pomdp_policy_b (p : pomdp_policy) : bool :=
   match ppVF p with
-  | h0 :: rest => (length h0 =? 1) && valid_vlists_b (ppS p) (ppA p) (ppO p) 1 rest && (ppH p =? length rest)
+  | h0 :: rest => is_h0_b (ppS p) h0 && valid_vlists_b (ppS p) (ppA p) (ppO p) 1 rest && (ppH p =? length rest)
   | [] => false
   end.
+
+(* the trivially true number predicates: "well-formed up to which numbers are representable" *)
+Definition anyQ (q : Q) : Prop := True.
+Definition anyN (n : N) : Prop := True.
